@@ -38,6 +38,8 @@ class C14(Check):
     def run(self) -> None:
         init = self.prog.module(INIT)
         sim = self.prog.module(SIM)
+        self.borrow("C10", ("V2", "V5"), "Q4")
+        self.borrow("C04", ("T3", "T8"), "Q5")
         self.q1(init)
         run_time_rule(self, "Q2", ["simulate_protocol", "simulate_protocol_time_course"], {"time_points": ABS})
         # drop the duplicated store-frame obligations contributed by the shared pass 0 (they belong to C04/T1)
@@ -45,8 +47,6 @@ class C14(Check):
         for name in ("simulate_protocol", "simulate_protocol_time_course"):
             self.q2(sim, name)
         self.q3(sim)
-        self.borrow("C10", ("V2", "V5"), "Q4")
-        self.borrow("C04", ("T3", "T8"), "Q5")
 
     def q1(self, init) -> None:
         fn = init.func("make_protocol")
